@@ -9,7 +9,7 @@ CONSTANTS
   Mode = "dyn"
   QSels = {{}}
   Vias = {"api"}
-  InstKeys = {1}
+  InstKeys = {}
   WithModify = TRUE
   AllFlags = FALSE
   GenDepth = 0
